@@ -146,7 +146,7 @@ func efImmut(c *Ctx, a *flAgg) {
 		if extMutatesArg0[e.name] {
 			continue // reported as sink
 		}
-		if !extReadOnly[e.pkg] || extMutator(e.pkg, e.name) {
+		if (!extReadOnly[e.pkg] && !extReadOnlyFn(e.pkg, e.name)) || extMutator(e.pkg, e.name) {
 			a.und("EF-immut", funcKey(e.fn)+"/ext:"+e.name, "snapshot memory is passed to "+e.name+", which is not in the read-only table", e.pos)
 		}
 	}
@@ -245,7 +245,7 @@ func efGlobals(c *Ctx, a *flAgg) {
 			if e.fn.Name() == "init" && e.fn.Parent() == nil {
 				continue
 			}
-			if (extReadOnly[e.pkg] && !extMutator(e.pkg, e.name)) || strings.HasPrefix(e.name, "invoke:") || pn == "internal" {
+			if (extReadOnly[e.pkg] && !extMutator(e.pkg, e.name)) || extReadOnlyFn(e.pkg, e.name) || strings.HasPrefix(e.name, "invoke:") || pn == "internal" {
 				continue
 			}
 			for _, an := range e.args {
